@@ -68,42 +68,55 @@ impl<T: Copy + Default> VecDeque<T> {
 }
 
 // ---------------------------------------------------------------------------
-// HashMap / HashSet: association lists.  Iteration order = insertion order, or
-// the reverse when the crate is built with `--features verif_rev_iter`, so
-// that order-sensitivity of the code under test is exercised both ways.
+// HashMap / HashSet: association lists in FIXED arrays inside the struct.
+// (Heap-backed lists made CBMC lose constant propagation: every lookup on a
+// concrete table became symbolic and `push` re-allocations with symbolic sizes
+// exhausted 30 GB.)  MAP_CAP = 64 is CBMC's field-sensitivity limit for arrays;
+// exceeding it is a *reported failure*.  Iteration order = insertion order, or
+// the reverse when built with `--features verif_rev_iter`, so that
+// order-sensitivity of the code under test is exercised both ways.
+pub const MAP_CAP: usize = 64;
+
 pub struct HashMap<K, V> {
-    items: Vec<(K, V)>,
+    keys: [K; MAP_CAP],
+    vals: [V; MAP_CAP],
+    len: usize,
 }
 
-impl<K: PartialEq, V> HashMap<K, V> {
+impl<K: Copy + Default + PartialEq, V: Copy + Default> HashMap<K, V> {
     pub fn new() -> Self {
-        HashMap { items: Vec::new() }
+        HashMap { keys: [K::default(); MAP_CAP], vals: [V::default(); MAP_CAP], len: 0 }
     }
     pub fn with_capacity(_n: usize) -> Self {
-        HashMap { items: Vec::new() }
+        Self::new()
     }
     pub fn len(&self) -> usize {
-        self.items.len()
+        self.len
     }
     pub fn is_empty(&self) -> bool {
-        self.items.is_empty()
+        self.len == 0
     }
     pub fn insert(&mut self, k: K, v: V) -> Option<V> {
         let mut i = 0;
-        while i < self.items.len() {
-            if self.items[i].0 == k {
-                return Some(core::mem::replace(&mut self.items[i].1, v));
+        while i < MAP_CAP {
+            if i < self.len && self.keys[i] == k {
+                let old = self.vals[i];
+                self.vals[i] = v;
+                return Some(old);
             }
             i += 1;
         }
-        self.items.push((k, v));
+        assert!(self.len < MAP_CAP, "verif_shim: HashMap model capacity (64) exceeded");
+        self.keys[self.len] = k;
+        self.vals[self.len] = v;
+        self.len += 1;
         None
     }
     pub fn get(&self, k: &K) -> Option<&V> {
         let mut i = 0;
-        while i < self.items.len() {
-            if self.items[i].0 == *k {
-                return Some(&self.items[i].1);
+        while i < MAP_CAP {
+            if i < self.len && self.keys[i] == *k {
+                return Some(&self.vals[i]);
             }
             i += 1;
         }
@@ -125,18 +138,17 @@ pub struct MapIter<'a, K, V> {
 impl<'a, K, V> Iterator for MapIter<'a, K, V> {
     type Item = (&'a K, &'a V);
     fn next(&mut self) -> Option<Self::Item> {
-        if self.i >= self.m.items.len() {
+        if self.i >= self.m.len {
             return None;
         }
-        let n = self.m.items.len();
+        let n = self.m.len;
         let idx = if cfg!(feature = "verif_rev_iter") { n - 1 - self.i } else { self.i };
         self.i += 1;
-        let e = &self.m.items[idx];
-        Some((&e.0, &e.1))
+        Some((&self.m.keys[idx], &self.m.vals[idx]))
     }
 }
 
-impl<K: PartialEq, V> FromIterator<(K, V)> for HashMap<K, V> {
+impl<K: Copy + Default + PartialEq, V: Copy + Default> FromIterator<(K, V)> for HashMap<K, V> {
     fn from_iter<I: IntoIterator<Item = (K, V)>>(it: I) -> Self {
         let mut m = HashMap::new();
         for (k, v) in it {
@@ -147,20 +159,21 @@ impl<K: PartialEq, V> FromIterator<(K, V)> for HashMap<K, V> {
 }
 
 pub struct HashSet<K> {
-    items: Vec<K>,
+    keys: [K; MAP_CAP],
+    len: usize,
 }
 
-impl<K: PartialEq> HashSet<K> {
+impl<K: Copy + Default + PartialEq> HashSet<K> {
     pub fn new() -> Self {
-        HashSet { items: Vec::new() }
+        HashSet { keys: [K::default(); MAP_CAP], len: 0 }
     }
     pub fn len(&self) -> usize {
-        self.items.len()
+        self.len
     }
     pub fn contains(&self, k: &K) -> bool {
         let mut i = 0;
-        while i < self.items.len() {
-            if self.items[i] == *k {
+        while i < MAP_CAP {
+            if i < self.len && self.keys[i] == *k {
                 return true;
             }
             i += 1;
@@ -171,18 +184,90 @@ impl<K: PartialEq> HashSet<K> {
         if self.contains(&k) {
             return false;
         }
-        self.items.push(k);
+        assert!(self.len < MAP_CAP, "verif_shim: HashSet model capacity (64) exceeded");
+        self.keys[self.len] = k;
+        self.len += 1;
         true
     }
 }
 
-impl<K> IntoIterator for HashSet<K> {
+pub struct SetIntoIter<K> {
+    keys: [K; MAP_CAP],
+    len: usize,
+    i: usize,
+}
+
+impl<K: Copy> Iterator for SetIntoIter<K> {
     type Item = K;
-    type IntoIter = std::vec::IntoIter<K>;
-    fn into_iter(mut self) -> Self::IntoIter {
-        if cfg!(feature = "verif_rev_iter") {
-            self.items.reverse();
+    fn next(&mut self) -> Option<K> {
+        if self.i >= self.len {
+            return None;
         }
-        self.items.into_iter()
+        let idx = if cfg!(feature = "verif_rev_iter") { self.len - 1 - self.i } else { self.i };
+        self.i += 1;
+        Some(self.keys[idx])
+    }
+    fn size_hint(&self) -> (usize, Option<usize>) {
+        (self.len - self.i, Some(self.len - self.i))
+    }
+}
+
+impl<K: Copy> IntoIterator for HashSet<K> {
+    type Item = K;
+    type IntoIter = SetIntoIter<K>;
+    fn into_iter(self) -> Self::IntoIter {
+        SetIntoIter { keys: self.keys, len: self.len, i: 0 }
+    }
+}
+
+// ---------------------------------------------------------------------------
+// Vec model for the per-run k-mer list of kmer_minimisers.rs ONLY (injected
+// there by one added import line that shadows the prelude's Vec inside that
+// file).  The real alloc::vec::Vec with data-dependent `push` made CBMC
+// re-allocate with symbolic sizes (10 GB at w=3, L=5).  Fixed capacity;
+// exceeding it is a reported failure.
+pub const KV_CAP: usize = 12;
+
+#[derive(Clone, Copy)]
+pub struct Vec<T> {
+    buf: [T; KV_CAP],
+    len: usize,
+}
+
+impl<T: Copy + Default> Vec<T> {
+    pub fn new() -> Self {
+        Vec { buf: [T::default(); KV_CAP], len: 0 }
+    }
+    pub fn len(&self) -> usize {
+        self.len
+    }
+    pub fn is_empty(&self) -> bool {
+        self.len == 0
+    }
+    pub fn clear(&mut self) {
+        self.len = 0;
+    }
+    pub fn push(&mut self, v: T) {
+        assert!(self.len < KV_CAP, "verif_shim: Vec model capacity (12) exceeded");
+        self.buf[self.len] = v;
+        self.len += 1;
+    }
+    pub fn clone_from(&mut self, other: &Self) {
+        *self = *other;
+    }
+    pub fn get(&self, i: usize) -> Option<&T> {
+        if i < self.len {
+            Some(&self.buf[i])
+        } else {
+            None
+        }
+    }
+}
+
+impl<T> core::ops::Index<usize> for Vec<T> {
+    type Output = T;
+    fn index(&self, i: usize) -> &T {
+        assert!(i < self.len, "verif_shim: Vec model index out of bounds");
+        &self.buf[i]
     }
 }
